@@ -176,6 +176,7 @@ let render_result (r : (string, string, string, string, string) result) : string
       ("h:" ^ hex_or_dash (String.concat "/" (List.map (fun (p, s) -> string_of_z p ^ "," ^ string_of_z s) h))
        ^ ":" ^ (if ended then "1" else "0"), None)
   | RLoad (ms, tail) -> (String.concat "&" ("ld" :: List.map render_motif ms), Some tail)
+  | RUnit -> ("deleted", None)
 
 (* ------------------------------------------------------------------ the core library = oracle table *)
 let make_core (tbl : (string, string) Hashtbl.t) : (string, string, string, string, string, string) core =
@@ -245,15 +246,29 @@ let make_core (tbl : (string, string) Hashtbl.t) : (string, string, string, stri
 (* ------------------------------------------------------------------ ops *)
 let which_of = function "c" -> O | "w" -> S O | _ -> S (S O)
 
+(* what is left to read from a real file object that was used before it is handed to load():
+   f<b|u|z><k> k bytes consumed by read(k) (buffered / raw FileIO / gzip), fk<k> seek(k),
+   fn<n> n lines consumed by readline(), fe read to the end *)
+let rec drop n l = if n <= 0 then l else match l with [] -> [] | _ :: r -> drop (n - 1) r
+let rec drop_lines n l =
+  if n <= 0 then l else
+  let rec one = function [] -> [] | 10 :: r -> r | _ :: r -> one r in
+  drop_lines (n - 1) (one l)
+
 let file_of_mode mode data : file_arg =
-  let bytes = zl (bytes_of_hex (if data = "-" then "" else data)) in
+  let raw = bytes_of_hex (if data = "-" then "" else data) in
+  let bytes = zl raw in
+  let num () = int_of_string (String.sub mode 2 (String.length mode - 2)) in
   match mode with
   | "p" | "b" -> FileData bytes
   | "q" | "e" -> FileMissing
   | "x" -> FileNoRead
-  | "t" -> FileNotBytes
+  | "t" | "fx" -> FileNotBytes
   | "o" -> FileBroken
-  | "r0" -> FileData []
+  | "r0" | "fe" -> FileData []
+  | m when String.length m > 2 && m.[0] = 'f' && (m.[1] = 'b' || m.[1] = 'u' || m.[1] = 'z' || m.[1] = 'k') ->
+      FileData (zl (drop (num ()) raw))
+  | m when String.length m > 2 && m.[0] = 'f' && m.[1] = 'n' -> FileData (zl (drop_lines (num ()) raw))
   | m when String.length m > 1 && m.[0] = 'r' -> FileData bytes
   | m -> failwith ("bad file mode " ^ m)
 
@@ -279,6 +294,7 @@ let parse_op (s : string) : call =
   | ["gm"; d; m; w] -> KGetMotif (n d, n m, which_of w)
   | ["ld"; d; mode; data; f; p] | ["lc"; d; mode; data; f; p] -> KLoad (n d, file_of_mode mode data, opt_pv f, opt_pv p)
   | ["gl"; d; l; i; w] -> KGetLoaded (n d, n l, n i, which_of w)
+  | ["dl"; x] -> KDelete (n x)
   | _ -> failwith ("bad op " ^ s)
 
 (* R<k>. = the float returned by op k (as observed); None when op k returned no float *)
